@@ -2,6 +2,19 @@
 C02, worker side: a worker never enters `execute_sequence` before every dataset the sequence
 requires has been announced to it — for every interleaving of TaskSequence / DatasetPublished /
 DatasetPurge messages, including a command that overtakes the publication notices of its inputs.
+
+What the bookkeeping of entrypoint.py means exactly (`c02_worker_bookkeeping`): while a sequence waits,
+`missing_ds` is non-empty, a subset of what the sequence requires, disjoint from `availab_ds`, and
+every required dataset outside it has been announced. A DatasetPurge only discards from
+`availab_ds` — `missing_ds` is NOT touched (entrypoint.py:131-133) — so a notice that was followed by a
+purge still counts: `c02_worker_avail_full_fails` is the history in which the worker enters
+`execute_sequence` with a purged input, `c02_worker_avail_partial` says that this is the only way: when no
+dataset a waiting sequence requires is purged while it waits, every required dataset is in `availab_ds`
+(announced and not purged since) at entry. That the controller never sends such a purge is C04
+(`c04_no_purge_while_running`); the composition with the executor is `Props/C02Exec.lean`.
+
+The invariant is generic in the meaning `P` of "announced" so that the executor-layer model can
+instantiate it with "completely written into the host's shm".
 -/
 import EkwVerif.Model.Worker
 
@@ -21,10 +34,13 @@ def execs (w : W) (hist : List Msg) : List Msg → List (Nat × List Ds × List 
     | (w1, .executed id) => (id, reqOf w m, hist ++ [m]) :: execs w1 (hist ++ [m]) ms
     | (w1, _) => execs w1 (hist ++ [m]) ms
 
-structure Inv (hist : List Msg) (w : W) : Prop where
-  avail_pub : ∀ d, d ∈ w.avail → Msg.published d ∈ hist
-  wait_pub : ∀ id req, w.waiting = some (id, req) → ∀ d, d ∈ req → d ∈ w.missing ∨ Msg.published d ∈ hist
+/-- the bookkeeping invariant, generic in what "announced" (`P`) means -/
+structure InvP (P : Ds → Prop) (w : W) : Prop where
+  avail_p : ∀ d, d ∈ w.avail → P d
+  wait_p : ∀ id req, w.waiting = some (id, req) → ∀ d, d ∈ req → d ∈ w.missing ∨ P d
   missing_wait : w.waiting = none → w.missing = []
+
+abbrev Inv (hist : List Msg) (w : W) : Prop := InvP (fun d => Msg.published d ∈ hist) w
 
 namespace Aux
 
@@ -40,20 +56,25 @@ theorem mem_addSet (l : List Ds) (d x : Ds) : x ∈ addSet l d ↔ x ∈ l ∨ x
       · exact this
   · simp
 
-theorem inv_init : Inv [] W.init := ⟨by simp [W.init], by simp [W.init], by simp [W.init]⟩
+theorem invP_init (P : Ds → Prop) : InvP P W.init := ⟨by simp [W.init], by simp [W.init], by simp [W.init]⟩
 
-theorem step_inv (hist : List Msg) (w w' : W) (m : Msg) (o : Out) (h : Inv hist w) (hs : step w m = (w', o)) :
-    Inv (hist ++ [m]) w' ∧ (∀ id, o = .executed id → ∀ d, d ∈ reqOf w m → Msg.published d ∈ hist ++ [m]) := by
+theorem inv_init : Inv [] W.init := invP_init _
+
+/-- One message preserves the invariant when "announced" only grows and holds of the dataset of a notice;
+an execution finds every required dataset announced. -/
+theorem step_invP (P P' : Ds → Prop) (hmono : ∀ d, P d → P' d) (w w' : W) (m : Msg) (o : Out) (h : InvP P w)
+    (hs : step w m = (w', o)) (hpub : ∀ d, m = .published d → P' d) :
+    InvP P' w' ∧ (∀ id, o = .executed id → ∀ d, d ∈ reqOf w m → P' d) := by
   cases m with
   | shutdown =>
     simp only [step, Prod.mk.injEq] at hs
     obtain ⟨rfl, rfl⟩ := hs
     refine ⟨⟨?_, ?_, ?_⟩, by simp⟩
-    · intro d hd; exact List.mem_append.mpr (Or.inl (h.avail_pub d hd))
+    · intro d hd; exact hmono d (h.avail_p d hd)
     · intro id req hw d hd
-      rcases h.wait_pub id req hw d hd with h1 | h1
+      rcases h.wait_p id req hw d hd with h1 | h1
       · exact Or.inl h1
-      · exact Or.inr (List.mem_append.mpr (Or.inl h1))
+      · exact Or.inr (hmono d h1)
     · exact h.missing_wait
   | purge ds =>
     simp only [step, Prod.mk.injEq] at hs
@@ -61,19 +82,19 @@ theorem step_inv (hist : List Msg) (w w' : W) (m : Msg) (o : Out) (h : Inv hist 
     refine ⟨⟨?_, ?_, ?_⟩, by simp⟩
     · intro d hd
       simp only [List.mem_filter] at hd
-      exact List.mem_append.mpr (Or.inl (h.avail_pub d hd.1))
+      exact hmono d (h.avail_p d hd.1)
     · intro id req hw d hd
-      rcases h.wait_pub id req hw d hd with h1 | h1
+      rcases h.wait_p id req hw d hd with h1 | h1
       · exact Or.inl h1
-      · exact Or.inr (List.mem_append.mpr (Or.inl h1))
+      · exact Or.inr (hmono d h1)
     · exact h.missing_wait
   | published ds =>
     simp only [step] at hs
-    have hav : ∀ d, d ∈ addSet w.avail ds → Msg.published d ∈ hist ++ [Msg.published ds] := by
+    have hav : ∀ d, d ∈ addSet w.avail ds → P' d := by
       intro d hd
       rcases (mem_addSet _ _ _).mp hd with h1 | rfl
-      · exact List.mem_append.mpr (Or.inl (h.avail_pub d h1))
-      · simp
+      · exact hmono d (h.avail_p d h1)
+      · exact hpub _ rfl
     split at hs
     · rename_i hmiss
       cases hw : w.waiting with
@@ -83,13 +104,13 @@ theorem step_inv (hist : List Msg) (w w' : W) (m : Msg) (o : Out) (h : Inv hist 
       | some p =>
         obtain ⟨id, req⟩ := p
         simp only [hw] at hs
-        have hwp : ∀ d, d ∈ req → d ∈ w.missing.filter (· != ds) ∨ Msg.published d ∈ hist ++ [Msg.published ds] := by
+        have hwp : ∀ d, d ∈ req → d ∈ w.missing.filter (· != ds) ∨ P' d := by
           intro d hd
-          rcases h.wait_pub id req hw d hd with h1 | h1
+          rcases h.wait_p id req hw d hd with h1 | h1
           · by_cases hdd : d = ds
-            · subst hdd; right; simp
+            · subst hdd; right; exact hpub _ rfl
             · left; simp [List.mem_filter, h1, hdd]
-          · right; exact List.mem_append.mpr (Or.inl h1)
+          · right; exact hmono d h1
         split at hs
         · rename_i hemp
           simp only [Prod.mk.injEq] at hs
@@ -103,18 +124,18 @@ theorem step_inv (hist : List Msg) (w w' : W) (m : Msg) (o : Out) (h : Inv hist 
           · exact h1
         · simp only [Prod.mk.injEq] at hs
           obtain ⟨rfl, rfl⟩ := hs
-          refine ⟨⟨hav, ?_, by simp [hw]⟩, by simp⟩
+          refine ⟨⟨hav, ?_, by simp⟩, by simp⟩
           intro id' req' hw' d hd
-          simp only [hw, Option.some.injEq, Prod.mk.injEq] at hw'
+          simp only [Option.some.injEq, Prod.mk.injEq] at hw'
           obtain ⟨rfl, rfl⟩ := hw'
           exact hwp d hd
     · simp only [Prod.mk.injEq] at hs
       obtain ⟨rfl, rfl⟩ := hs
       refine ⟨⟨hav, ?_, h.missing_wait⟩, by simp⟩
       intro id req hw d hd
-      rcases h.wait_pub id req hw d hd with h1 | h1
+      rcases h.wait_p id req hw d hd with h1 | h1
       · exact Or.inl h1
-      · exact Or.inr (List.mem_append.mpr (Or.inl h1))
+      · exact Or.inr (hmono d h1)
   | taskSeq id required =>
     simp only [step] at hs
     cases hw : w.waiting with
@@ -122,27 +143,26 @@ theorem step_inv (hist : List Msg) (w w' : W) (m : Msg) (o : Out) (h : Inv hist 
       simp only [hw, Prod.mk.injEq] at hs
       obtain ⟨rfl, rfl⟩ := hs
       refine ⟨⟨?_, ?_, ?_⟩, by simp⟩
-      · intro d hd; exact List.mem_append.mpr (Or.inl (h.avail_pub d hd))
+      · intro d hd; exact hmono d (h.avail_p d hd)
       · intro id' req hw' d hd
-        rcases h.wait_pub id' req hw' d hd with h1 | h1
+        rcases h.wait_p id' req hw' d hd with h1 | h1
         · exact Or.inl h1
-        · exact Or.inr (List.mem_append.mpr (Or.inl h1))
+        · exact Or.inr (hmono d h1)
       · intro h0; simp [hw] at h0
     | none =>
       simp only [hw] at hs
-      have hreq : ∀ d, d ∈ required → d ∈ required.filter (fun d => !w.avail.contains d) ∨
-          Msg.published d ∈ hist ++ [Msg.taskSeq id required] := by
+      have hreq : ∀ d, d ∈ required → d ∈ required.filter (fun d => !w.avail.contains d) ∨ P' d := by
         intro d hd
         by_cases hin : d ∈ w.avail
-        · right; exact List.mem_append.mpr (Or.inl (h.avail_pub d hin))
+        · right; exact hmono d (h.avail_p d hin)
         · left; simp [List.mem_filter, hd, hin]
       split at hs
       · rename_i hemp
         simp only [Prod.mk.injEq] at hs
         obtain ⟨rfl, rfl⟩ := hs
         have hnil : required.filter (fun d => !w.avail.contains d) = [] := by simpa using hemp
-        refine ⟨⟨?_, by simp [hw], by simp⟩, ?_⟩
-        · intro d hd; exact List.mem_append.mpr (Or.inl (h.avail_pub d hd))
+        refine ⟨⟨?_, by simp, by simp⟩, ?_⟩
+        · intro d hd; exact hmono d (h.avail_p d hd)
         · intro id' _ d hd
           simp only [reqOf] at hd
           rcases hreq d hd with h1 | h1
@@ -151,11 +171,15 @@ theorem step_inv (hist : List Msg) (w w' : W) (m : Msg) (o : Out) (h : Inv hist 
       · simp only [Prod.mk.injEq] at hs
         obtain ⟨rfl, rfl⟩ := hs
         refine ⟨⟨?_, ?_, by simp⟩, by simp⟩
-        · intro d hd; exact List.mem_append.mpr (Or.inl (h.avail_pub d hd))
+        · intro d hd; exact hmono d (h.avail_p d hd)
         · intro id' req' hw' d hd
           simp only [Option.some.injEq, Prod.mk.injEq] at hw'
           obtain ⟨rfl, rfl⟩ := hw'
           exact hreq d hd
+
+theorem step_inv (hist : List Msg) (w w' : W) (m : Msg) (o : Out) (h : Inv hist w) (hs : step w m = (w', o)) :
+    Inv (hist ++ [m]) w' ∧ (∀ id, o = .executed id → ∀ d, d ∈ reqOf w m → Msg.published d ∈ hist ++ [m]) :=
+  step_invP _ _ (fun d hd => List.mem_append.mpr (Or.inl hd)) w w' m o h hs (fun d hm => by subst hm; simp)
 
 theorem execs_sound (w : W) (hist msgs : List Msg) (h : Inv hist w) :
     ∀ e, e ∈ execs w hist msgs → ∀ d, d ∈ e.2.1 → Msg.published d ∈ e.2.2 := by
@@ -213,6 +237,331 @@ theorem c02_worker_immediate (w : W) (id : Nat) (req : List Ds) (w' : W)
 /-- non-vacuity: the command overtakes the notice of its input; execution happens only after it -/
 example : execs W.init [] [.taskSeq 7 [(0, 0), (1, 0)], .published (0, 0), .purge (5, 5), .published (1, 0)] =
     [(7, [(0, 0), (1, 0)], [.taskSeq 7 [(0, 0), (1, 0)], .published (0, 0), .purge (5, 5), .published (1, 0)])] := by
+  decide
+
+-- ---------------------------------------------------------------------------------------------- purges
+/-- the state after a history (the process stops at a raise or a shutdown) -/
+def after : W → List Msg → W
+  | w, [] => w
+  | w, m :: ms =>
+    if w.stopped then w else
+    match step w m with
+    | (w1, .raised _) => { w1 with stopped := true }
+    | (w1, _) => after w1 ms
+
+/-- the executions of a history with the worker's state at the moment of entry (the triggering message processed) -/
+def execsAt (w : W) : List Msg → List (Nat × List Ds × W)
+  | [] => []
+  | m :: ms =>
+    if w.stopped then [] else
+    match step w m with
+    | (_, .raised _) => []
+    | (w1, .executed id) => (id, reqOf w m, w1) :: execsAt w1 ms
+    | (w1, _) => execsAt w1 ms
+
+/-- no DatasetPurge of a dataset that the waiting sequence requires arrives while it waits -/
+def noPurgeWhileWaiting (w : W) : List Msg → Bool
+  | [] => true
+  | m :: ms =>
+    if w.stopped then true else
+    (match m with
+     | .purge d => !((w.waiting.map (·.2)).getD []).contains d
+     | _ => true) &&
+    (match step w m with
+     | (_, .raised _) => true
+     | (w1, _) => noPurgeWhileWaiting w1 ms)
+
+/-- what `availab_ds / missing_ds / waiting_ts` mean -/
+structure Book (w : W) : Prop where
+  wait_missing : ∀ id req, w.waiting = some (id, req) → w.missing ≠ [] ∧ (∀ d, d ∈ w.missing → d ∈ req ∧ d ∉ w.avail)
+  nowait : w.waiting = none → w.missing = []
+
+/-- every required dataset of the waiting sequence is still missing or available (announced, not purged) -/
+def Held (w : W) : Prop := ∀ id req, w.waiting = some (id, req) → ∀ d, d ∈ req → d ∈ w.missing ∨ d ∈ w.avail
+
+namespace Aux
+
+theorem book_init : Book W.init := ⟨by simp [W.init], by simp [W.init]⟩
+
+theorem not_mem_addSet_of (l : List Ds) (d x : Ds) (h : x ∉ l) (hx : x ≠ d) : x ∉ addSet l d := by
+  intro hm
+  rcases (mem_addSet l d x).mp hm with h1 | h1
+  · exact h h1
+  · exact hx h1
+
+theorem step_book (w w' : W) (m : Msg) (o : Out) (h : Book w) (hs : step w m = (w', o)) : Book w' := by
+  cases m with
+  | shutdown =>
+    simp only [step, Prod.mk.injEq] at hs
+    obtain ⟨rfl, rfl⟩ := hs
+    exact ⟨h.wait_missing, h.nowait⟩
+  | purge ds =>
+    simp only [step, Prod.mk.injEq] at hs
+    obtain ⟨rfl, rfl⟩ := hs
+    refine ⟨?_, h.nowait⟩
+    intro id req hw
+    obtain ⟨h1, h2⟩ := h.wait_missing id req hw
+    refine ⟨h1, fun d hd => ⟨(h2 d hd).1, ?_⟩⟩
+    intro hm
+    simp only [List.mem_filter] at hm
+    exact (h2 d hd).2 hm.1
+  | published ds =>
+    simp only [step] at hs
+    split at hs
+    · rename_i hmiss
+      cases hw : w.waiting with
+      | none =>
+        have := h.nowait hw
+        simp [this] at hmiss
+      | some p =>
+        obtain ⟨id, req⟩ := p
+        simp only [hw] at hs
+        obtain ⟨h1, h2⟩ := h.wait_missing id req hw
+        split at hs
+        · rename_i hemp
+          simp only [Prod.mk.injEq] at hs
+          obtain ⟨rfl, rfl⟩ := hs
+          refine ⟨by simp, ?_⟩
+          intro _
+          simpa using hemp
+        · rename_i hne
+          simp only [Prod.mk.injEq] at hs
+          obtain ⟨rfl, rfl⟩ := hs
+          refine ⟨?_, by simp⟩
+          intro id' req' hw'
+          simp only [Option.some.injEq, Prod.mk.injEq] at hw'
+          obtain ⟨rfl, rfl⟩ := hw'
+          refine ⟨by simpa using hne, ?_⟩
+          intro d hd
+          simp only [List.mem_filter, bne_iff_ne, ne_eq] at hd
+          exact ⟨(h2 d hd.1).1, not_mem_addSet_of _ _ _ (h2 d hd.1).2 hd.2⟩
+    · rename_i hmiss
+      simp only [Prod.mk.injEq] at hs
+      obtain ⟨rfl, rfl⟩ := hs
+      refine ⟨?_, h.nowait⟩
+      intro id req hw
+      obtain ⟨h1, h2⟩ := h.wait_missing id req hw
+      refine ⟨h1, fun d hd => ⟨(h2 d hd).1, ?_⟩⟩
+      apply not_mem_addSet_of _ _ _ (h2 d hd).2
+      intro hdd
+      subst hdd
+      have : w.missing.contains d = true := by simpa using hd
+      exact hmiss this
+  | taskSeq id required =>
+    simp only [step] at hs
+    cases hw : w.waiting with
+    | some p =>
+      simp only [hw, Prod.mk.injEq] at hs
+      obtain ⟨rfl, rfl⟩ := hs
+      exact ⟨h.wait_missing, h.nowait⟩
+    | none =>
+      simp only [hw] at hs
+      split at hs
+      · simp only [Prod.mk.injEq] at hs
+        obtain ⟨rfl, rfl⟩ := hs
+        exact ⟨by simp, by simp⟩
+      · rename_i hne
+        simp only [Prod.mk.injEq] at hs
+        obtain ⟨rfl, rfl⟩ := hs
+        refine ⟨?_, by simp⟩
+        intro id' req' hw'
+        simp only [Option.some.injEq, Prod.mk.injEq] at hw'
+        obtain ⟨rfl, rfl⟩ := hw'
+        refine ⟨by simpa using hne, ?_⟩
+        intro d hd
+        simp only [List.mem_filter, Bool.not_eq_eq_eq_not, Bool.not_true, List.contains_eq_mem,
+          decide_eq_false_iff_not] at hd
+        exact hd
+
+theorem after_book (w : W) (msgs : List Msg) (h : Book w) : Book (after w msgs) := by
+  induction msgs generalizing w with
+  | nil => exact h
+  | cons m ms ih =>
+    unfold after
+    split
+    · exact h
+    · cases hs : step w m with
+      | mk w1 o =>
+        have h1 := step_book w w1 m o h hs
+        cases o with
+        | raised msg => exact ⟨h1.wait_missing, h1.nowait⟩
+        | executed id => exact ih w1 h1
+        | nothing => exact ih w1 h1
+        | provided l => exact ih w1 h1
+        | stop => exact ih w1 h1
+
+theorem held_init : Held W.init := by intro id req hw; simp [W.init] at hw
+
+/-- one message that is not a purge of a dataset the waiting sequence requires keeps `Held`; an execution finds
+every required dataset in `availab_ds` -/
+theorem step_held (w w' : W) (m : Msg) (o : Out) (h : Held w) (hb : Book w) (hs : step w m = (w', o))
+    (hp : ∀ d, m = .purge d → d ∉ (w.waiting.map (·.2)).getD []) :
+    Held w' ∧ (∀ id, o = .executed id → ∀ d, d ∈ reqOf w m → d ∈ w'.avail) := by
+  cases m with
+  | shutdown =>
+    simp only [step, Prod.mk.injEq] at hs
+    obtain ⟨rfl, rfl⟩ := hs
+    exact ⟨h, by simp⟩
+  | purge ds =>
+    simp only [step, Prod.mk.injEq] at hs
+    obtain ⟨rfl, rfl⟩ := hs
+    refine ⟨?_, by simp⟩
+    intro id req hw d hd
+    have hw0 : w.waiting = some (id, req) := hw
+    rcases h id req hw0 d hd with h1 | h1
+    · exact Or.inl h1
+    · right
+      have hne : d ≠ ds := by
+        intro hdd
+        subst hdd
+        have := hp d rfl
+        simp [hw0] at this
+        exact this hd
+      simp [List.mem_filter, h1, hne]
+  | published ds =>
+    simp only [step] at hs
+    split at hs
+    · rename_i hmiss
+      cases hw : w.waiting with
+      | none =>
+        have := hb.nowait hw
+        simp [this] at hmiss
+      | some p =>
+        obtain ⟨id, req⟩ := p
+        simp only [hw] at hs
+        have hwp : ∀ d, d ∈ req → d ∈ w.missing.filter (· != ds) ∨ d ∈ addSet w.avail ds := by
+          intro d hd
+          rcases h id req hw d hd with h1 | h1
+          · by_cases hdd : d = ds
+            · subst hdd; right; exact (mem_addSet _ _ _).mpr (Or.inr rfl)
+            · left; simp [List.mem_filter, h1, hdd]
+          · right; exact (mem_addSet _ _ _).mpr (Or.inl h1)
+        split at hs
+        · rename_i hemp
+          simp only [Prod.mk.injEq] at hs
+          obtain ⟨rfl, rfl⟩ := hs
+          have hnil : w.missing.filter (· != ds) = [] := by simpa using hemp
+          refine ⟨by intro id' req' hw'; simp at hw', ?_⟩
+          intro id' _ d hd
+          simp only [reqOf, hw, Option.map_some, Option.getD_some] at hd
+          rcases hwp d hd with h1 | h1
+          · rw [hnil] at h1; simp at h1
+          · exact h1
+        · simp only [Prod.mk.injEq] at hs
+          obtain ⟨rfl, rfl⟩ := hs
+          refine ⟨?_, by simp⟩
+          intro id' req' hw' d hd
+          simp only [Option.some.injEq, Prod.mk.injEq] at hw'
+          obtain ⟨rfl, rfl⟩ := hw'
+          exact hwp d hd
+    · simp only [Prod.mk.injEq] at hs
+      obtain ⟨rfl, rfl⟩ := hs
+      refine ⟨?_, by simp⟩
+      intro id req hw d hd
+      have hw0 : w.waiting = some (id, req) := hw
+      rcases h id req hw0 d hd with h1 | h1
+      · exact Or.inl h1
+      · exact Or.inr ((mem_addSet _ _ _).mpr (Or.inl h1))
+  | taskSeq id required =>
+    simp only [step] at hs
+    cases hw : w.waiting with
+    | some p =>
+      simp only [hw, Prod.mk.injEq] at hs
+      obtain ⟨rfl, rfl⟩ := hs
+      exact ⟨h, by simp⟩
+    | none =>
+      simp only [hw] at hs
+      have hreq : ∀ d, d ∈ required → d ∈ required.filter (fun d => !w.avail.contains d) ∨ d ∈ w.avail := by
+        intro d hd
+        by_cases hin : d ∈ w.avail
+        · exact Or.inr hin
+        · left; simp [List.mem_filter, hd, hin]
+      split at hs
+      · rename_i hemp
+        simp only [Prod.mk.injEq] at hs
+        obtain ⟨rfl, rfl⟩ := hs
+        have hnil : required.filter (fun d => !w.avail.contains d) = [] := by simpa using hemp
+        refine ⟨by intro id' req' hw'; simp at hw', ?_⟩
+        intro id' _ d hd
+        simp only [reqOf] at hd
+        rcases hreq d hd with h1 | h1
+        · rw [hnil] at h1; simp at h1
+        · exact h1
+      · simp only [Prod.mk.injEq] at hs
+        obtain ⟨rfl, rfl⟩ := hs
+        refine ⟨?_, by simp⟩
+        intro id' req' hw' d hd
+        simp only [Option.some.injEq, Prod.mk.injEq] at hw'
+        obtain ⟨rfl, rfl⟩ := hw'
+        exact hreq d hd
+
+theorem execsAt_sound (w : W) (msgs : List Msg) (h : Held w) (hb : Book w) (hc : noPurgeWhileWaiting w msgs = true) :
+    ∀ e, e ∈ execsAt w msgs → ∀ d, d ∈ e.2.1 → d ∈ e.2.2.avail := by
+  induction msgs generalizing w with
+  | nil => intro e he; simp [execsAt] at he
+  | cons m ms ih =>
+    intro e he
+    unfold execsAt at he
+    unfold noPurgeWhileWaiting at hc
+    split at he
+    · simp at he
+    · rename_i hst
+      simp only [hst, Bool.false_eq_true, ↓reduceIte, Bool.and_eq_true] at hc
+      cases hs : step w m with
+      | mk w1 o =>
+        have hp : ∀ d, m = .purge d → d ∉ (w.waiting.map (·.2)).getD [] := by
+          intro d hm
+          subst hm
+          simpa using hc.1
+        have hstep := step_held w w1 m o h hb hs hp
+        have hb1 := step_book w w1 m o hb hs
+        rw [hs] at he
+        have hc2 := hc.2
+        rw [hs] at hc2
+        cases o with
+        | raised msg => simp at he
+        | executed id =>
+          simp only [List.mem_cons] at he
+          rcases he with rfl | he
+          · intro d hd; exact hstep.2 id rfl d hd
+          · exact ih w1 hstep.1 hb1 hc2 e he
+        | nothing => exact ih w1 hstep.1 hb1 hc2 e he
+        | provided l => exact ih w1 hstep.1 hb1 hc2 e he
+        | stop => exact ih w1 hstep.1 hb1 hc2 e he
+
+end Aux
+
+/-- **What the bookkeeping means.** After every message history: a sequence waits exactly while `missing_ds` is
+non-empty; `missing_ds` is a subset of what the waiting sequence requires and disjoint from `availab_ds`. The worker
+never waits for a dataset it holds a (not purged) notice of, and never waits for nothing. -/
+theorem c02_worker_bookkeeping (msgs : List Msg) :
+    let w := after W.init msgs
+    (∀ id req, w.waiting = some (id, req) → w.missing ≠ [] ∧ ∀ d, d ∈ w.missing → d ∈ req ∧ d ∉ w.avail) ∧
+    (w.waiting = none → w.missing = []) :=
+  let h := Aux.after_book W.init msgs Aux.book_init
+  ⟨h.wait_missing, h.nowait⟩
+
+/-- **Inputs still announced at entry, when no input is purged while its sequence waits.** For every history in which no
+DatasetPurge names a dataset that the sequence waiting at that moment requires, every dataset a sequence requires is in
+`availab_ds` — announced and not purged since — when the worker enters `execute_sequence` for it. -/
+theorem c02_worker_avail_partial (msgs : List Msg) (hc : noPurgeWhileWaiting W.init msgs = true) (id : Nat) (req : List Ds) (w : W)
+    (he : (id, req, w) ∈ execsAt W.init msgs) : ∀ d, d ∈ req → d ∈ w.avail :=
+  Aux.execsAt_sound W.init msgs Aux.held_init Aux.book_init hc (id, req, w) he
+
+/-- Without that hypothesis the statement is false of the code as it is: `missing_ds` is not updated by a purge, so the
+notice of (0,0) still counts after (0,0) was purged, and the sequence is executed on the notice of (1,0). (The same
+history on the real entrypoint: replayed by the check, `worker_witness_purged_input`.) -/
+theorem c02_worker_avail_full_fails :
+    ¬ (∀ (msgs : List Msg) (id : Nat) (req : List Ds) (w : W), (id, req, w) ∈ execsAt W.init msgs → ∀ d, d ∈ req → d ∈ w.avail) := by
+  intro h
+  have := h [.taskSeq 7 [(0, 0), (1, 0)], .published (0, 0), .purge (0, 0), .published (1, 0)] 7 [(0, 0), (1, 0)]
+    { avail := [(1, 0)], waiting := none, missing := [], stopped := false } (by decide) (0, 0) (by decide)
+  revert this
+  decide
+
+/-- non-vacuity of `c02_worker_avail_partial`: a purge of an unrelated dataset while waiting, executions happen -/
+example : noPurgeWhileWaiting W.init [.taskSeq 7 [(0, 0), (1, 0)], .published (0, 0), .purge (5, 5), .published (1, 0)] = true ∧
+    (execsAt W.init [.taskSeq 7 [(0, 0), (1, 0)], .published (0, 0), .purge (5, 5), .published (1, 0)]).length = 1 := by
   decide
 
 end EkwVerif.Worker
